@@ -94,9 +94,6 @@ func VerifHarness_C10_ReaderDeletesPersist() {
 	r := open()
 
 	maxDel := 2
-	if vThorough() {
-		maxDel = 3
-	}
 	nDel := vLen("deletes", 1, maxDel)
 	var dels []vC10Del
 	for i := 0; i < nDel; i++ {
